@@ -36,31 +36,33 @@ theorem rtxLoop_window {B : Type} (s : St) (allow : B → Int → Bool × B) (i 
       · cases hd
       · split at hd
         · cases hd
-        · rename_i _ hwin
-          simp only [Bool.and_eq_true, Bool.not_eq_true', not_and] at hwin
-          obtain ⟨e1, e2⟩ := ha
-          have hlen : ((rtxUpd s c).len : Int) = c.len := rfl
-          refine ⟨?_, ?_⟩
-          · simp only; rw [sumLen_snoc, e1]; push_cast; rw [show (rtxUpd s c).len = c.len from rfl]
-          · by_cases hp : rtx_isProbe i s.rwnd (c.len : Int) = true
-            · -- the probe: first scanned chunk, larger than rwnd
-              simp only [rtx_isProbe, Bool.and_eq_true, beq_iff_eq, decide_eq_true_eq] at hp
-              obtain ⟨hi0, hlt⟩ := hp
-              obtain ⟨o1, o2⟩ := h0 hi0
-              right
-              refine ⟨by simp [o1], ?_⟩
-              simp only [o2]
-              have hle : (rtx_awnd s.cwnd s.rwnd).toNat ≤ s.rwnd.toNat := by
-                simp only [rtx_awnd, min32]
-                by_cases hc : s.cwnd < s.rwnd
-                · simp only [hc, decide_true, if_true]; bv_omega
-                · simp only [hc, decide_false, Bool.false_eq_true, if_false]; omega
-              omega
-            · have hne : rtx_exceedsWindow a.bytesToSend (c.len : Int) (rtx_awnd s.cwnd s.rwnd) = false := by
-                have := hwin (by simpa using hp)
-                simpa using this
-              simp only [rtx_exceedsWindow, decide_eq_false_iff_not, Int.not_lt] at hne
-              left; simp only; omega
+        · split at hd
+          · cases hd
+          · rename_i _ hwin
+            simp only [Bool.and_eq_true, Bool.not_eq_true', not_and] at hwin
+            obtain ⟨e1, e2⟩ := ha
+            have hlen : ((rtxUpd s c).len : Int) = c.len := rfl
+            refine ⟨?_, ?_⟩
+            · simp only; rw [sumLen_snoc, e1]; push_cast; rw [show (rtxUpd s c).len = c.len from rfl]
+            · by_cases hp : rtx_isProbe i s.rwnd (c.len : Int) = true
+              · -- the probe: first scanned chunk, larger than rwnd
+                simp only [rtx_isProbe, Bool.and_eq_true, beq_iff_eq, decide_eq_true_eq] at hp
+                obtain ⟨hi0, hlt⟩ := hp
+                obtain ⟨o1, o2⟩ := h0 hi0
+                right
+                refine ⟨by simp [o1], ?_⟩
+                simp only [o2]
+                have hle : (rtx_awnd s.cwnd s.rwnd).toNat ≤ s.rwnd.toNat := by
+                  simp only [rtx_awnd, min32]
+                  by_cases hc : s.cwnd < s.rwnd
+                  · simp only [hc, decide_true, if_true]; bv_omega
+                  · simp only [hc, decide_false, Bool.false_eq_true, if_false]; omega
+                omega
+              · have hne : rtx_exceedsWindow a.bytesToSend (c.len : Int) (rtx_awnd s.cwnd s.rwnd) = false := by
+                  have := hwin (by simpa using hp)
+                  simpa using this
+                simp only [rtx_exceedsWindow, decide_eq_false_iff_not, Int.not_lt] at hne
+                left; simp only; omega
 
 /-- `getDataPacketsToRetransmit`: the user bytes retransmitted in one gather are at most `min(cwnd, rwnd)`, or the
 gather retransmits a single chunk that alone exceeds that window (the zero-window probe of the earliest chunk) -/
